@@ -1,0 +1,16 @@
+//go:build verif
+
+// Contracts for command recompute-cache, checked by /verif's govc (comment-only file).
+package main
+
+//@ func recompute-cache.computeCacheHash props C07
+//@   ensures [C07] same-key-as-the-log: ret == sha256Of(cacheKeyBytes(IsPrecert, IssuerKeyHash, Certificate))
+
+//@ assume func recompute-cache.fatalError
+//@   ensures false
+
+// The body of `for i, se := range client.Entries(...)`: a row is written only for an entry the verifying client
+// yielded at index i, after the se.LeafIndex == i check, with that entry's own timestamp, index and cache key.
+//@ func recompute-cache.main$1 props C07
+//@   call sqlitex.Exec requires [C07] row-for-authenticated-index: se.LeafIndex == i && len(c_args) == 3 && c_args[0] == iface(bytes(h)) && c_args[1] == iface(se.Timestamp) && c_args[2] == iface(se.LeafIndex)
+//@   call recompute-cache.computeCacheHash requires [C07] key-of-yielded-entry: c_Certificate == se.Certificate && c_IsPrecert == se.IsPrecert && c_IssuerKeyHash == se.IssuerKeyHash
